@@ -110,7 +110,7 @@ func (e *Exec) call(fr *frame, x *ssa.Call, reach Term, st *State) Term {
 	res, r2 := e.callStatic(fr, fn, args, reach, st, x.Pos())
 	// anchors: ghost updates / asserts after a call
 	setResult(res)
-	e.afterCallAnchors(fr, fn, x, r2, st, res)
+	e.afterCallAnchors(fr, fn, x, r2, st, res, args)
 	return r2
 }
 
@@ -723,7 +723,7 @@ func (e *Exec) appendOp(s, t Val, reach Term, st *State, x *ssa.Call) Val {
 }
 
 // afterCallAnchors: ghost updates and asserts anchored "call <callee> after"
-func (e *Exec) afterCallAnchors(fr *frame, fn *ssa.Function, x *ssa.Call, reach Term, st *State, res []Val) {
+func (e *Exec) afterCallAnchors(fr *frame, fn *ssa.Function, x *ssa.Call, reach Term, st *State, res []Val, args []Val) {
 	if fr == nil || fr.spec == nil || len(e.curFn) != 1 {
 		return
 	}
@@ -756,6 +756,7 @@ func (e *Exec) afterCallAnchors(fr *frame, fn *ssa.Function, x *ssa.Call, reach 
 		if match(gu.Anchor) {
 			env := fr.specEnv(st)
 			env.result = res
+			env.args = args
 			v := e.evalSpec(gu.E, env)
 			old, ok := e.ghost[gu.Var]
 			if !ok {
@@ -772,6 +773,7 @@ func (e *Exec) afterCallAnchors(fr *frame, fn *ssa.Function, x *ssa.Call, reach 
 			// assign, and continue from the formula alone
 			env := fr.specEnv(st)
 			env.result = res
+			env.args = args
 			g := e.evalSpecBool(ct.E, env, st, nil)
 			label := ct.E.Label
 			if label == "" {
@@ -790,6 +792,7 @@ func (e *Exec) afterCallAnchors(fr *frame, fn *ssa.Function, x *ssa.Call, reach 
 		if match(as.Anchor) {
 			env := fr.specEnv(st)
 			env.result = res
+			env.args = args
 			g := e.evalSpecBool(as.E, env, st, nil)
 			label := as.E.Label
 			if label == "" {
